@@ -84,3 +84,20 @@ Theorem C04_separated_values : forall (raw : list (string * Q)) a1 x1 a2 x2 m0,
 Proof. exact scan_separated. Qed.
 Print Assumptions C04_rounding_error.
 Print Assumptions C04_separated_values.
+
+(** end to end on solve(): for every well-formed game (both modes, any number instance with lawful
+    comparisons, e.g. exact rationals) the reported reachability strategy of state i is the arg-max
+    (Player 1, from 0) / arg-min (Player 2, from 1) filter of the 6-digit roundings of the REPORTED
+    probabilities of i's successors, in transition order; probabilistic states get None *)
+From CR Require Import Proofs.StratSolveP.
+Theorem C04_solve_strategies : forall (T : Type) (K : ops T), lawful_order K ->
+  forall fuel (g : game (T:=T)) prune r i,
+  wf_game K g -> solve_fuel K fuel g prune = Ok r -> i < nstates g ->
+  nth i (r_reachs r) None =
+  match nth i (g_players g) PR with
+  | P1 => Some (argmax_list K (zero K) (vals_of K (r_probs r) (nth i (g_trans g) [])))
+  | P2 => Some (argmin_list K (one K) (vals_of K (r_probs r) (nth i (g_trans g) [])))
+  | PR => None
+  end.
+Proof. intros T K L. exact (reach_strategies_of_solve K L). Qed.
+Print Assumptions C04_solve_strategies.
